@@ -27,6 +27,11 @@ CHECKS = {
                    "is checked against ground truth on fake codecs (raw/hexa/rev) and RLE compressors, not on real proto/json/gzip",
         "assumptions": E2E_ASSUME + ["WorldLaws (decode∘encode = id, decompress∘compress = id, compressed output non-empty) are hypotheses"],
     },
+    "C02": {
+        "module": "Vanguard.Props.C02", "namespace": "Vanguard.C02", "streams": ["e2e"],
+        "partial": "negotiation is proved; validity of the whole backend request is an oracle on the implementation plus correspondence",
+        "assumptions": E2E_ASSUME,
+    },
     "C05": {
         "module": "Vanguard.Props.C05", "namespace": "Vanguard.C05", "streams": ["e2e"],
         "partial": "request direction proved; response headers and trailer relocation are checked by correspondence and ground-truth oracle",
